@@ -220,6 +220,8 @@ BAD_TEMPLATES = [
     ("{fn}({ctx}, !!{v})", {}, "second focus without first"),
     ("{fn}({v})", {"overridable": True}, "no focus where overriding requires one"),
     ("{fn}({ctx}, {v})", {"overridable": True}, "no focus where overriding requires one"),
+    ("{fn}({v})", {"overridable": True, "probe_type": "immediate"}, "no focus where overriding requires one (immediate type given explicitly)"),
+    ("{fn}({ctx}, {v})", {"overridable": True, "probe_type": "immediate"}, "no focus where overriding requires one (immediate type given explicitly)"),
     ("{fn} > nosuchvar", {}, "variable that occurs nowhere in the function"),
     ("{fn}(nosuchvar) > {v}", {}, "variable that occurs nowhere in the function"),
     ("* > {v}", {}, "wildcard function"),
